@@ -98,6 +98,21 @@ fn calendar_case(lo: u64, hi: u64, op: &str, probe: i64) -> i32 {
     if matches && !kept { 3 } else { 0 }
 }
 
+/// Calendar index with a wide zone [lo, hi] and a narrow zone holding only `probe`: an equality
+/// probe for `probe` (which lies in the wide zone) must keep the wide zone. exit 3 = pruned.
+fn calendar2_case(lo: u64, hi: u64, probe: u64) -> i32 {
+    use snel_db::command::types::CompareOp;
+    use snel_db::engine::core::time::temporal_calendar_index::TemporalCalendarIndex;
+    use snel_db::engine::core::time::temporal_traits::FieldIndex;
+    let mut cal = TemporalCalendarIndex::new("created_at");
+    cal.add_zone_range(0, lo, hi);
+    cal.add_zone_range(1, probe, probe);
+    let zones = cal.zones_intersecting(CompareOp::Eq, probe as i64);
+    let kept = zones.contains(0);
+    println!("zone 0 covers [{lo}, {hi}], zone 1 covers [{probe}, {probe}]; probe ts = {probe} lies in zone 0: calendar keeps zone 0 = {kept}");
+    if lo <= probe && probe <= hi && !kept { 3 } else { 0 }
+}
+
 /// F-C09-a: TOTAL / AVG / MIN / MAX of a u64 field on the segment tier vs the memory tier.
 fn agg_u64(value: u64) -> i32 {
     use snel_db::engine::core::read::aggregate::ops::AggregatorImpl;
@@ -313,6 +328,7 @@ fn main() {
         Some("retirekey") if args.len() >= 4 => retirekey(args[2].parse().unwrap(), &args[3]),
         Some("allocstep") if args.len() >= 4 => allocstep(args[2].parse().unwrap(), args[3].parse().unwrap()),
         Some("history") if args.len() >= 3 => history(&args[2]),
+        Some("calendar2") if args.len() >= 5 => calendar2_case(args[2].parse().unwrap(), args[3].parse().unwrap(), args[4].parse().unwrap()),
         Some("stringcell") if args.len() >= 3 => stringcell(&args[2]),
         Some("surf") if args.len() >= 6 => surf_case(
             args[2].parse().unwrap(),
